@@ -1,0 +1,56 @@
+//go:build verif
+
+package dispatcher
+
+import (
+	"net/netip"
+
+	"github.com/gopacket/gopacket"
+
+	"github.com/scionproto/scion/pkg/addr"
+	"github.com/scionproto/scion/pkg/private/common"
+	"github.com/scionproto/scion/pkg/slayers"
+)
+
+// NewVerifServer builds a Server without a socket (no IP_PKTINFO set-up), for driving
+// processMsgNextHop directly.
+func NewVerifServer(isDispatcher bool, svcAddrs map[addr.Addr]netip.AddrPort) *Server {
+	server := Server{
+		isDispatcher:     isDispatcher,
+		ServiceAddresses: svcAddrs,
+		buf:              make([]byte, common.SupportedMTU),
+		oobuf:            make([]byte, 1024),
+		decoded:          make([]gopacket.LayerType, 4),
+		outBuffer:        gopacket.NewSerializeBuffer(),
+		options: gopacket.SerializeOptions{
+			ComputeChecksums: true,
+			FixLengths:       true,
+		},
+	}
+	parser := gopacket.NewDecodingLayerParser(
+		slayers.LayerTypeSCION,
+		&server.scionLayer,
+		&server.hbh,
+		&server.e2e,
+		&server.udpLayer,
+		&server.scmpLayer,
+	)
+	parser.IgnoreUnsupported = true
+	server.parser = parser
+	server.scionLayer.RecyclePaths()
+	server.udpLayer.SetNetworkLayerForChecksum(&server.scionLayer)
+	server.scmpLayer.SetNetworkLayerForChecksum(&server.scionLayer)
+	return &server
+}
+
+// VerifProcess calls processMsgNextHop. The returned buffer is a copy.
+func (s *Server) VerifProcess(buf []byte, underlay netip.Addr, prevHop netip.AddrPort) (
+	[]byte, netip.AddrPort, error) {
+
+	in := append([]byte{}, buf...)
+	out, nh, err := s.processMsgNextHop(in, underlay, prevHop)
+	if out == nil {
+		return nil, nh, err
+	}
+	return append([]byte{}, out...), nh, err
+}
